@@ -28,6 +28,10 @@ def map_match_position(m, latex, charmap):
     offset = abs(charmap[beg]) - 1
     m['offset'] = offset
     length = abs(charmap[end]) - abs(charmap[beg]) + 1
+    if length < 1:
+        # e.g. match of length zero, or match across different text flows:
+        # mark one character, as done for the HTML report
+        length = 1
     m['length'] = correct_mark_macroname(offset, length, latex)
     return m
 
